@@ -222,6 +222,22 @@ Hypothesis Huo : forall dt, tz_utcoffset tz dt = Ok (UO (fst dt) (snd dt)).
 Hypothesis Hdst : forall dt, tz_dst tz dt = Ok (DST (fst dt) (snd dt)).
 Hypothesis Hamb : forall dt, tz_is_ambiguous tz dt = Ok (g_is_ambiguous UO (fst dt)).
 
+Theorem gen_generic_is_ambiguous_lemma : forall dt,
+  gen_generic_is_ambiguous tz dt = Ok (g_is_ambiguous UO (fst dt)).
+Proof.
+  intros dt. unfold gen_generic_is_ambiguous, g_is_ambiguous. rewrite !Huo. cbn [bind py_enfold fst snd Z.eqb negb].
+  unfold py_dt_eq. cbn [fst]. rewrite Z.eqb_refl. reflexivity.
+Qed.
+
+(* tz.datetime_ambiguous on a zone whose is_ambiguous is unusable (raises / absent): the fallback *)
+Theorem gen_datetime_ambiguous_fallback_lemma : forall dt,
+  (exists e, tz_is_ambiguous tz dt = Err e) ->
+  gen_datetime_ambiguous tz dt = Ok (g_ambiguous_fallback UO DST (fst dt)).
+Proof.
+  intros dt [e He]. unfold gen_datetime_ambiguous, g_ambiguous_fallback. rewrite He. rewrite !Huo, !Hdst.
+  cbn [bind py_enfold fst snd Z.eqb negb]. reflexivity.
+Qed.
+
 Theorem gen_generic__fromutc_lemma : forall u,
   gen_generic__fromutc tz (u, false) = Ok (g_fromutc_wall UO DST u, false).
 Proof.
